@@ -195,8 +195,23 @@ enum Expect {
 struct Walker<'a> {
     epoch: i64,
     exists: &'a dyn Fn(ActorID) -> bool,
+    /// fixture knowledge: key address -> id of the pre-created accounts (not asked from the actors)
+    keys: &'a [(Address, ActorID)],
     stats: &'a mut CaseStats,
     depth_in_wallet_send: u32,
+}
+
+impl<'a> Walker<'a> {
+    fn to_id(&mut self, a: &Address) -> Option<ActorID> {
+        if let Ok(i) = a.id() {
+            return Some(i);
+        }
+        let r = self.keys.iter().find(|(k, _)| k == a).map(|(_, i)| *i);
+        if r.is_some() {
+            self.stats.label("signer_named_by_key_address");
+        }
+        r
+    }
 }
 
 impl Walker<'_> {
@@ -382,9 +397,9 @@ impl Walker<'_> {
                 match t.method {
                     5 => {
                         let p = decode!(ms::AddSignerParams);
-                        let id = match p.signer.id() {
-                            Ok(i) => i,
-                            Err(_) => return Ok(Expect::Accept), // not generated; follow impl
+                        let id = match self.to_id(&p.signer) {
+                            Some(i) => i,
+                            None => return Ok(Expect::Accept), // unknown key address: not generated; follow impl
                         };
                         if !(self.exists)(id) {
                             return Ok(Expect::Reject("new signer does not exist"));
@@ -407,9 +422,9 @@ impl Walker<'_> {
                     }
                     6 => {
                         let p = decode!(ms::RemoveSignerParams);
-                        let id = match p.signer.id() {
-                            Ok(i) => i,
-                            Err(_) => return Ok(Expect::Accept),
+                        let id = match self.to_id(&p.signer) {
+                            Some(i) => i,
+                            None => return Ok(Expect::Accept),
                         };
                         if !m.signers.contains(&id) {
                             return Ok(Expect::Reject("not a signer"));
@@ -439,8 +454,8 @@ impl Walker<'_> {
                     }
                     7 => {
                         let p = decode!(ms::SwapSignerParams);
-                        let (from, to) = match (p.from.id(), p.to.id()) {
-                            (Ok(a), Ok(b)) => (a, b),
+                        let (from, to) = match (self.to_id(&p.from), self.to_id(&p.to)) {
+                            (Some(a), Some(b)) => (a, b),
                             _ => return Ok(Expect::Accept),
                         };
                         if !(self.exists)(to) {
@@ -606,6 +621,7 @@ struct Ctx {
     wallet: ActorID,
     w2: ActorID,
     ghost: ActorID,
+    keys: Vec<(Address, ActorID)>,
 }
 
 impl Ctx {
@@ -614,6 +630,16 @@ impl Ctx {
         let mut all = self.accounts.clone();
         all.push(self.w2);
         all[pick(f, all.len())]
+    }
+    /// Name a principal in a parameter: by ID address, or (one selector in three, accounts only) by
+    /// the account's key address, which the wallet must resolve before comparing with its records.
+    fn name(&self, f: u16, id: ActorID) -> Address {
+        if (f / 4) % 3 == 0 {
+            if let Some((k, _)) = self.keys.iter().find(|(_, i)| *i == id) {
+                return *k;
+            }
+        }
+        Address::new_id(id)
     }
     fn principal(&self, f: u16) -> ActorID {
         // accounts, the wallet itself, the second multisig, and a non-existent id
@@ -677,17 +703,17 @@ impl C12 {
         match a {
             Admin::AddSigner { who, increase } => (
                 5,
-                ser(&ms::AddSignerParams { signer: Address::new_id(c.principal(*who)), increase: *increase }),
+                ser(&ms::AddSignerParams { signer: c.name(*who, c.principal(*who)), increase: *increase }),
             ),
             Admin::RemoveSigner { who, decrease } => (
                 6,
-                ser(&ms::RemoveSignerParams { signer: Address::new_id(signerish(*who)), decrease: *decrease }),
+                ser(&ms::RemoveSignerParams { signer: c.name(*who, signerish(*who)), decrease: *decrease }),
             ),
             Admin::SwapSigner { from, to } => (
                 7,
                 ser(&ms::SwapSignerParams {
-                    from: Address::new_id(signerish(*from)),
-                    to: Address::new_id(c.principal(*to)),
+                    from: c.name(*from, signerish(*from)),
+                    to: c.name(*to, c.principal(*to)),
                 }),
             ),
             Admin::ChangeThreshold { n } => {
@@ -727,7 +753,7 @@ impl Engine for C12 {
     }
     fn budget(&self, tier: Tier) -> (u32, u32) {
         match tier {
-            Tier::Quick => (16, 4000),
+            Tier::Quick => (16, 20000),
             Tier::Thorough => (16, 60000),
         }
     }
@@ -767,7 +793,7 @@ impl Engine for C12 {
     fn assumptions(&self) -> Vec<String> {
         vec![
             "actors run natively on SimVM (no Wasm, no gas)".into(),
-            "signer parameters are ID addresses (no address auto-creation inside wallet methods)".into(),
+            "signer parameters are ID addresses or key addresses of existing accounts (no address auto-creation inside wallet methods)".into(),
             "an implementation that rejects a call the model would accept is labelled, not reported (the property states only safety)".into(),
         ]
     }
@@ -827,7 +853,9 @@ impl Engine for C12 {
         )
         .expect("wallet creation");
         let ghost = 90_000;
-        let c = Ctx { w, accounts, wallet, w2, ghost };
+        let keys: Vec<(Address, ActorID)> =
+            accounts.iter().enumerate().map(|(i, id)| (crate::world::key_addr(100 + i as u16), *id)).collect();
+        let c = Ctx { w, accounts, wallet, w2, ghost, keys };
         let mut model = Model {
             w: wallet,
             signers: signers.clone(),
@@ -922,7 +950,7 @@ impl Engine for C12 {
             // this engine and accounts are pre-created, so the post-state is equivalent.
             let sends_before = stats.counters.get("sends").copied().unwrap_or(0);
             {
-                let mut walker = Walker { epoch: c.w.v.epoch(), exists: &exists, stats, depth_in_wallet_send: 0 };
+                let mut walker = Walker { epoch: c.w.v.epoch(), exists: &exists, keys: &c.keys, stats, depth_in_wallet_send: 0 };
                 walker.walk(&mut model, &r.trace)?;
             }
             if stats.counters.get("sends").copied().unwrap_or(0) > sends_before && r.ok() {
